@@ -53,8 +53,19 @@ MUTATIONS = {
     "field-last-job-dropped": (CANVAS, lambda s: nth(s, "\tfor attribute, function := range field.Float1Functions {\n\t\tsection := d.getSection(attribute, Float1)\n\t\tfor _, chunkPos := range chunkSections {",
                                                      "\tfor attribute, function := range field.Float1Functions {\n\t\tsection := d.getSection(attribute, Float1)\n\t\tfor _, chunkPos := range chunkSections[:maxInt(1, len(chunkSections)-1)] {", 0),
                                "AddFieldParallel: the last block of a multi-block field is never queued"),
-    "march-result-dropped": (CANVAS, lambda s: s.replace("\tfor i := 0; i < numJobs; i++ {\n\t\tfinalMesh = finalMesh.Append(<-results)", "\tfor i := 0; i < maxInt(1, numJobs-1); i++ {\n\t\tfinalMesh = finalMesh.Append(<-results)"),
+    "march-result-dropped": (CANVAS, lambda s: s.replace("\tfor _, blockMesh := range blockMeshes {\n", "\tfor _, blockMesh := range blockMeshes[:maxInt(1, len(blockMeshes)-1)] {\n"),
                              "marchFloat1Parallel: one block result of a multi-block canvas is not merged"),
+    # ---- round 2: the class of the seeded changes C10-r2m1 / C10-r2m2 and neighbours of it
+    "field2-whole-block-copy": (CANVAS, lambda s: s.replace("\t\tresultData := result.data\n", "\t\tresultData := result.data\n\t\tif len(resultData) == marchingSectionSizeCubed {\n\t\t\tcopy(data, resultData)\n\t\t\tcontinue\n\t\t}\n"),
+                                "AddFieldParallel2: a job covering a whole block is copied over the block instead of added (seed C10-r2m1)"),
+    "field-skip-empty-job": (CANVAS, lambda s: nth(s, "\t\t\tjobs <- job{\n", "\t\t\tif canvasSpaceChunkPos.X >= endPos.X || canvasSpaceChunkPos.Y >= endPos.Y || canvasSpaceChunkPos.Z >= endPos.Z {\n\t\t\t\tcontinue\n\t\t\t}\n\t\t\tjobs <- job{\n", 0),
+                             "AddFieldParallel: a job without samples is not queued, its block never registered (seed C10-r2m2)"),
+    "field2-skip-empty-result": (CANVAS, lambda s: s.replace("\t\tchunkPos := result.chunkPos\n\t\tdata := d.float1Data[d.chunkIndex_atomic(result.section, chunkPos)]\n", "\t\tchunkPos := result.chunkPos\n\t\tif len(result.data) == 0 {\n\t\t\tcontinue\n\t\t}\n\t\tdata := d.float1Data[d.chunkIndex_atomic(result.section, chunkPos)]\n"),
+                                 "AddFieldParallel2: a result without samples is dropped before its block is registered"),
+    "field-whole-block-assign": (CANVAS, lambda s: s.replace("\t\t\t\td.addFloat1Range(j.section, j.chunkPos, j.startPos, j.endPos, j.function)\n", "\t\t\t\tif j.endPos.Sub(j.startPos) == (modeling.VectorInt{X: marchingSectionSize, Y: marchingSectionSize, Z: marchingSectionSize}) {\n\t\t\t\t\tblock := d.float1Chunk_atomic(j.section, j.chunkPos)\n\t\t\t\t\tfor k := range block {\n\t\t\t\t\t\tblock[k] = 0\n\t\t\t\t\t}\n\t\t\t\t}\n\t\t\t\td.addFloat1Range(j.section, j.chunkPos, j.startPos, j.endPos, j.function)\n"),
+                                 "AddFieldParallel: a worker clears a block before a job that covers it completely"),
+    "march-merge-completion-order": (CANVAS, lambda s: s.replace("\t\tblockMeshes[result.job] = result.mesh\n", "\t\tblockMeshes[i] = result.mesh\n"),
+                                     "marchFloat1Parallel: block meshes merged in the order the workers finish (the repaired defect; bit-exact cases, probabilistic)"),
     "field2-xz-swap": (CANVAS, lambda s: s.replace("function(vector3.New(xF, yF, zF))", "function(vector3.New(zF, yF, xF))"),
                        "AddFieldParallel2: field sampled at (z,y,x) (the pinned defect)"),
     "field2-jobs-per-block": (CANVAS, lambda s: s.replace("numJobs := len(chunkSections) * len(field.Float1Functions)", "numJobs := len(chunkSections)"),
